@@ -1,4 +1,365 @@
-import Kap.Basic
+/-
+Driver for C19: reads the cases produced by the Go harness (which ran the REAL agent.WriteMessage/ReadMessage and
+a REAL udf.Server against an echoing agent.Agent), replays each on the model, and judges
+  * the spec (Kap/Spec/C19.lean) on the OBSERVED output — SPECFAIL, checked first;
+  * observed = model — MISMATCH.
+Token formats: see harness/c19/tokens.go.
+-/
+import Kap.Spec.C19
+open Kap Kap.C19
 
-/-- Driver for property C19 (replaced by the property's driver). -/
-def main : IO Unit := Kap.driverMain (fun _ _ => .badop "driver not implemented")
+namespace Kap.C19.Drv
+
+/-! ### parsing -/
+
+def hexNib (c : Char) : Option Nat := hexVal c
+
+def parseHexChars : List Char → List Nat → Option (List Nat)
+  | [], acc => some acc.reverse
+  | a :: b :: rest, acc =>
+    match hexNib a, hexNib b with
+    | some x, some y => parseHexChars rest ((x * 16 + y) :: acc)
+    | _, _ => none
+  | _, _ => none
+
+def parseHex (s : String) : Option (List Nat) := if s == "!" then some [] else parseHexChars s.toList []
+
+def parseHexNat (s : String) : Option Nat :=
+  s.toList.foldl (fun acc c => match acc, hexNib c with | some a, some x => some (a * 16 + x) | _, _ => none) (some 0)
+
+def splitList (s sep : String) : List String := if s == "!" then [] else s.splitOn sep
+
+def parseBool (s : String) : Option Bool := if s == "1" then some true else if s == "0" then some false else none
+
+def parseKV {α : Type} (val : String → Option α) (e : String) : Option (String × α) :=
+  match e.splitOn "=" with
+  | [k, v] => do pure (← unesc k, ← val v)
+  | _ => none
+
+def parseMap {α : Type} (val : String → Option α) (s : String) : Option (GoMap α) := (splitList s ",").mapM (parseKV val)
+
+def parseTags (s : String) : Option Tags := parseMap unesc s
+def parseDims (s : String) : Option (List String) := (splitList s ",").mapM unesc
+
+def parseFV (s : String) : Option FV :=
+  let rest := (s.drop 1).toString
+  match s.front with
+  | 's' => (unesc rest).map .str
+  | 'f' => (parseHexNat rest).map .float
+  | 'i' => rest.toInt?.map .int
+  | 'b' => (parseBool rest).map .bool
+  | _ => none
+
+def parseFields (s : String) : Option Fields := parseMap parseFV s
+
+def parseBP (s : String) : Option BP :=
+  match s.splitOn ";" with
+  | [t, f, tm] => do pure { tags := ← parseTags t, fields := ← parseFields f, time := ← tm.toInt? }
+  | _ => none
+
+def parseBPs (s : String) : Option (List BP) := (splitList s "~").mapM parseBP
+
+/-- input point `P|name|db|rp|dims|byName|tags|fields|time`, built by `edge.NewPointMessage`. -/
+def parseInPoint (tok : String) : Option Point :=
+  match tok.splitOn "|" with
+  | ["P", n, d, r, dims, bn, tags, fields, tm] => do
+    pure (newPoint (← unesc n) (← unesc d) (← unesc r) (← parseBool bn) (← parseDims dims) (← parseFields fields)
+      (← parseTags tags) (← tm.toInt?))
+  | _ => none
+
+/-- input batch `B|name|byName|tags|tmax|sizehint|pts|setdims`. -/
+def parseInBatch (tok : String) : Option (Begin × List BP × Bool) :=
+  match tok.splitOn "|" with
+  | ["B", n, bn, tags, tmax, sh, pts, sd] => do
+    let tags ← parseTags tags
+    let bn ← parseBool bn
+    let b := newBegin (← unesc n) tags bn (← tmax.toInt?) (← sh.toInt?)
+    let pts ← parseBPs pts
+    if sd == "*" then pure (b, pts, false)
+    else pure (b.setTagsAndDimensions tags bn (← parseDims sd), pts, true)
+  | _ => none
+
+/-- observed output message. -/
+def parseOut (tok : String) : Option (Data × Int) :=
+  match tok.splitOn "|" with
+  | ["P", n, d, r, g, dims, bn, tags, fields, tm] => do
+    pure (.point { name := ← unesc n, db := ← unesc d, rp := ← unesc r, group := ← unesc g, dims := ← parseDims dims,
+                   byName := ← parseBool bn, tags := ← parseTags tags, fields := ← parseFields fields, time := ← tm.toInt? }, 0)
+  | ["B", n, g, dims, bn, tags, tmax, sh, pts] => do
+    let sh ← sh.toInt?
+    pure (.batch { name := ← unesc n, group := ← unesc g, dims := ← parseDims dims, byName := ← parseBool bn,
+                   tags := ← parseTags tags, tmax := ← tmax.toInt?, sizeHint := sh } (← parseBPs pts), sh)
+  | _ => none
+
+def renderDims (d : List String) : String := if d.isEmpty then "!" else ",".intercalate (d.map esc)
+
+/-! ### the harness's chunking (harness/c19/c19.go splitChunks) -/
+
+def parsePattern (s : String) : Option (List Nat) := do
+  let p ← (splitList s ",").mapM (·.toNat?)
+  pure (if p.isEmpty then [2 ^ 30] else p)
+
+/-- `(data.take k, data.drop k)` in one pass. -/
+def splitAtRev : Nat → List Nat → List Nat → List Nat × List Nat
+  | 0, data, acc => (acc.reverse, data)
+  | _ + 1, [], acc => (acc.reverse, [])
+  | k + 1, b :: data, acc => splitAtRev k data (b :: acc)
+
+def splitChunksGo (pat : Array Nat) : (fuel : Nat) → Nat → List Nat → List (List Nat) → Chunks
+  | 0, _, _, acc => acc.reverse
+  | fuel + 1, i, data, acc =>
+    if data.isEmpty then acc.reverse else
+    let (c, rest) := splitAtRev (pat[i % pat.size]!) data []
+    splitChunksGo pat fuel (i + 1) rest (c :: acc)
+
+def splitChunks (data : List Nat) (pat : List Nat) : Chunks :=
+  let pat := if pat.all (· == 0) then pat ++ [1] else pat
+  splitChunksGo pat.toArray (data.length * (pat.length + 1) + 1) 0 data []
+
+/-! ### state -/
+
+structure St where
+  -- frame cases
+  written : Array String := #[]                 -- descriptions of the messages written
+  frames : Array (List Nat × List Nat) := #[]   -- observed (varint, payload) of each WriteMessage
+  -- echo cases
+  sess : Session := {}
+  sent : Array Data := #[]
+  modelOut : Array EdgeMsg := #[]
+  chunked : Bool := false
+  branches : List String := []
+  nontrivial : Bool := false
+
+def addBr (st : St) (b : String) : St := if st.branches.contains b then st else { st with branches := b :: st.branches }
+def addBrs (st : St) (bs : List String) : St := bs.foldl addBr st
+
+/-- split `a:b:rest` at the first two colons. -/
+def split3 (s : String) : Option (String × String × String) :=
+  match s.splitOn ":" with
+  | a :: b :: rest => some (a, b, ":".intercalate rest)
+  | _ => none
+
+def fieldBranches (f : Fields) : List String :=
+  (if f.isEmpty then ["fields-empty"] else []) ++
+  (if (strsOf f).isEmpty then [] else ["typed-string"]) ++ (if (floatsOf f).isEmpty then [] else ["typed-float"]) ++
+  (if (intsOf f).isEmpty then [] else ["typed-int"]) ++ (if (boolsOf f).isEmpty then [] else ["typed-bool"])
+
+def groupBranch (byName : Bool) (dims : List String) : String :=
+  if dims.isEmpty then (if byName then "group-name-only" else "group-nil") else (if byName then "group-name+dims" else "group-dims")
+
+def typesIn (f : Fields) : Nat :=
+  [(strsOf f).isEmpty, (floatsOf f).isEmpty, (intsOf f).isEmpty, (boolsOf f).isEmpty].count false
+
+/-! ### frame cases -/
+
+def errKind : RdErr → String
+  | .eof => "eof"
+  | _ => "err"
+
+def judgeWrite (st : St) (tok : String) (obs : List String) (l : String) : Except Verdict St :=
+  match obs with
+  | [v, p] =>
+    match parseHex v, parseHex p with
+    | some v, some p =>
+      match writeMessage p with
+      | some bytes =>
+        if bytes != v ++ p then .error (.mismatch s!"WriteMessage: model writes varint {putUvarint p.length}, observed {v}")
+        else
+          let st := addBr st s!"varint-{v.length}"
+          let st := if p.isEmpty then addBr st "payload-empty" else st
+          .ok { st with written := st.written.push tok, frames := st.frames.push (v, p) }
+      | none => .error (.mismatch "WriteMessage: model panics (length needs more than 5 varint bytes)")
+    | _, _ => .error (.badop l)
+  | _ => .error (.specfail "framing-roundtrip" s!"WriteMessage of a well-formed message failed: {obs}")
+
+def judgeRead (st : St) (pat ewd cut : String) (obs : List String) (l : String) : Except Verdict St := do
+  let some pat := parsePattern pat | .error (.badop l)
+  let ewd := ewd == "1"
+  let full := st.frames.toList.flatMap (fun f => f.1 ++ f.2)
+  let cutN : Option Nat := if cut == "-" then none else cut.toNat?
+  let stream := match cutN with | some c => full.take c | none => full
+  let isCut := stream.length < full.length
+  -- observed
+  let mut oks : List (Nat × String) := []
+  let mut final : Option (String × Nat) := none
+  for o in obs do
+    match split3 o with
+    | some ("ok", c, d) => match c.toNat? with | some c => oks := oks ++ [(c, d)] | none => .error (.badop l)
+    | _ =>
+      match o.splitOn ":" with
+      | [k, c] => match c.toNat? with | some c => final := some (k, c) | none => .error (.badop l)
+      | _ => if o == "panic" then .error (.specfail "no-panic" s!"ReadMessage panicked: {l}") else .error (.badop l)
+  let cleanEnd := match final with | some ("eof", _) => true | _ => false
+  let readDescs := oks.map (·.2)
+  -- the property on the observed output
+  if !isCut then
+    if !framingIdentity st.written.toList readDescs cleanEnd then
+      .error (.specfail "framing-roundtrip"
+        s!"{st.written.size} messages written, {readDescs.length} read back{if readDescs == st.written.toList then "" else " (or not the same)"}, end={final.map (·.1)} under reads {pat} eofWithData={ewd}")
+  else
+    let lens := st.frames.toList.map (fun f => f.1.length + f.2.length)
+    if !framingTruncated st.written.toList readDescs lens stream.length cleanEnd then
+      .error (.specfail "framing-truncated"
+        s!"stream cut at {stream.length} of {full.length}: read {readDescs.length} messages, end={final.map (·.1)}; whole frames {(wholeFrames lens stream.length).1}")
+  -- the model
+  let chunks := splitChunks stream pat
+  let (ms, e) := readAllWith srcDataFirst ewd (totalBytes chunks + 1) chunks
+  let total := stream.length
+  let mConsumed := ms.map (fun m => total - totalBytes m.2)
+  if mConsumed != oks.map (·.1) then
+    .error (.mismatch s!"ReadMessage consumed-after-each-message: model {mConsumed} observed {oks.map (·.1)} (reads {pat}, eofWithData={ewd}, cut={cut})")
+  if (ms.map (·.1)) != (st.frames.toList.take ms.length).map (·.2) then
+    .error (.mismatch "model payloads differ from the written payloads")
+  match final with
+  | some (k, _) => if k != errKind e then .error (.mismatch s!"end of stream: model {errKind e} observed {k} (reads {pat}, eofWithData={ewd}, cut={cut})")
+  | none => .error (.mismatch s!"end of stream: model {errKind e}, the implementation kept reading")
+  -- branches
+  let mut st := st
+  st := addBr st (match e with | .eof => "end-clean" | .unexpectedEOF => "end-in-varint" | .overflow => "end-overflow" | .bodyEOF => "end-in-body" | .fuel => "end-fuel")
+  if ewd then st := addBr st "eof-with-data"
+  if chunks.any (·.isEmpty) then st := addBr st "empty-read"
+  -- where do chunk boundaries fall?
+  let bounds := (chunks.foldl (fun (acc : List Nat × Nat) c => (if c.isEmpty then acc.1 else (acc.2 + c.length) :: acc.1, acc.2 + c.length)) ([], 0)).1
+  let mut off := 0
+  let mut inside := false
+  for f in st.frames do
+    let v := f.1.length
+    let p := f.2.length
+    if bounds.any (fun b => off < b && b < off + v) then st := addBr st "split-in-varint"
+    if bounds.any (fun b => off + v < b && b < off + v + p) then st := addBr st "split-in-body"; inside := true
+    if bounds.any (fun b => b == off + v) && p > 0 then st := addBr st "split-varint|body"
+    off := off + v + p
+  if chunks.length == 1 then st := addBr st "one-read"
+  if isCut then st := addBr st "truncated"
+  if st.frames.size ≥ 2 && (inside || st.branches.contains "split-in-varint") then st := { st with nontrivial := true }
+  return st
+
+/-! ### echo cases -/
+
+def edgeToData : EdgeMsg → Option Data
+  | .point p => some (.point p)
+  | .buffered b pts => some (.batch b pts)
+  | _ => none
+
+def runModel (st : St) (msgs : List EdgeMsg) : Except Verdict St := do
+  let mut st := st
+  for m in msgs do
+    match st.sess.send m with
+    | none => .error (.mismatch "model: nil dereference in serverWrite/handleResponse")
+    | some (s', outs) =>
+      st := { st with sess := s', modelOut := st.modelOut ++ (dataOuts outs).toArray }
+  return st
+
+def ctlRequest (st : St) (r : Request) : Except Verdict (St × List Out) :=
+  match st.sess.requests [r] with
+  | none => .error (.mismatch "model: nil dereference")
+  | some (s', outs) => .ok ({ st with sess := s', modelOut := st.modelOut ++ (dataOuts outs).toArray }, outs)
+
+def judgeOut (st : St) (obs : List String) (l : String) : Except Verdict St := do
+  match obs with
+  | status :: ka :: diag :: toks =>
+    if status != "ok" || diag != "diag=0" then
+      .error (.specfail "session-clean" s!"a well-behaved session ended with {status} {diag}")
+    let toks := if toks == ["!"] then [] else toks
+    let some recvd := toks.mapM parseOut | .error (.badop l)
+    let sent := st.sent.toList
+    if !echoIdentity sent (recvd.map (·.1)) then
+      let i := firstDiff sent (recvd.map (·.1))
+      .error (.specfail "echo-identity" s!"sent {sent.length} data messages, received {recvd.length}; first difference at index {i}: received {toks.getD i "nothing"}")
+    -- model = observed
+    let some mdl := st.modelOut.toList.mapM edgeToData | .error (.mismatch "model emitted a non-data message")
+    if !echoIdentity mdl (recvd.map (·.1)) then
+      .error (.mismatch s!"model output differs from the observed output at index {firstDiff mdl (recvd.map (·.1))}")
+    let mdlHints := st.modelOut.toList.map (fun m => match m with | .buffered b _ => b.sizeHint | _ => 0)
+    if mdlHints != recvd.map (·.2) then .error (.mismatch s!"size hints: model {mdlHints} observed {recvd.map (·.2)}")
+    let mut st := st
+    if ka == "ka=1" then st := addBr st "keepalive-crossed"
+    if sent.isEmpty then st := addBr st "session-empty"
+    return st
+  | _ => .error (.badop l)
+
+def judgeLine (st : St) (l : String) : Except Verdict St := do
+  let (opT, obs) := splitObs (tokens l)
+  if obs == ["panic"] then .error (.specfail "no-panic" l)
+  match opT with
+  | ["w", tok] => judgeWrite st tok obs l
+  | ["rd", pat, ewd, cut] => judgeRead st pat ewd cut obs l
+  | ["cfg", reqPat, respPat, bufio, ka] =>
+    if obs != ["ok:0:0"] then .error (.specfail "session-clean" s!"info/init against the echo agent: {obs}")
+    let st := if reqPat != "!" || respPat != "!" then { st with chunked := true } else st
+    let st := if reqPat == "1" || respPat == "1" then addBr st "one-byte-reads" else st
+    let st := addBr st (if bufio == "1" then "server-reads-via-bufio" else "server-reads-direct")
+    return (if ka != "0" then addBr st "keepalive-on" else st)
+  | ["pt", tok] =>
+    let some p := parseInPoint tok | .error (.badop l)
+    match obs with
+    | [g] =>
+      if g != esc p.group then .error (.mismatch s!"ToGroupID: model {esc p.group} observed {g}")
+    | _ => .error (.specfail "session-clean" s!"server aborted while a point was sent: {obs}")
+    let inBatch := st.sess.rstate.points.isSome
+    let mut st := addBrs st (["point", groupBranch p.byName p.dims] ++ fieldBranches p.fields ++ (if p.tags.isEmpty then ["tags-empty"] else []))
+    if inBatch then st := addBr st "point-while-batch-open"
+    if typesIn p.fields ≥ 2 && st.chunked then st := { st with nontrivial := true }
+    st := { st with sent := st.sent.push (.point p) }
+    runModel st [.point p]
+  | [kind, tok] =>
+    if kind == "bb" || kind == "ub" then
+      let some (b, pts, wasSet) := parseInBatch tok | .error (.badop l)
+      match obs with
+      | [g, d, t] =>
+        if g != esc b.group then .error (.mismatch s!"batch ToGroupID: model {esc b.group} observed {g}")
+        if d != renderDims b.dims then .error (.mismatch s!"batch dimensions: model {renderDims b.dims} observed {d}")
+        match parseTags t with
+        | some t => if !sameMap t b.tags then .error (.mismatch s!"batch tags after SetTagsAndDimensions: observed {t}")
+        | none => .error (.badop l)
+      | _ => .error (.specfail "session-clean" s!"server aborted while a batch was sent: {obs}")
+      let mut st := addBrs st ([if kind == "bb" then "batch-buffered" else "batch-unbuffered", "batch-" ++ groupBranch b.byName b.dims,
+        if pts.isEmpty then "batch-empty" else if pts.length == 1 then "batch-1" else "batch-n"] ++ pts.flatMap (fun p => fieldBranches p.fields))
+      if b.sizeHint != pts.length then st := addBr st "sizehint-wrong"
+      if wasSet then st := addBr st "batch-dims-set"
+      if pts.any (fun p => !sameMap p.tags b.tags) then st := addBr st "bp-own-tags"
+      if st.sent.any (fun d => match d with | .batch _ _ => true | _ => false) then st := addBr st "batch-after-batch"
+      if !pts.isEmpty && st.chunked then st := { st with nontrivial := true }
+      st := { st with sent := st.sent.push (.batch b pts) }
+      if kind == "bb" then runModel st [.buffered b pts]
+      else runModel st ([.begin b] ++ pts.map .bp ++ [.endB])
+    else if kind == "snap" || kind == "snapc" then
+      let some bytes := parseHex tok | .error (.badop l)
+      let some got := (match obs with | [h] => parseHex h | _ => none) |
+        .error (.specfail "snapshot-bytes" s!"Snapshot() failed: {obs}")
+      if !snapshotIdentity bytes got then
+        .error (.specfail "snapshot-bytes" s!"the UDF supplied {bytes.length} bytes, Snapshot() returned {got.length} bytes (or different ones)")
+      let st := { st with sess := { st.sess with peer := { st.sess.peer with snap := bytes } } }
+      let (st, outs) ← ctlRequest st .snapshot
+      if outs != [.snapshot got] then .error (.mismatch s!"snapshot: model outputs {outs.length} control messages / other bytes")
+      let st := addBr st (if kind == "snap" then "snapshot" else "snapshot-concurrent")
+      let st := if st.sess.rstate.points.isSome then addBr st "snapshot-inside-batch" else st
+      return (if bytes.isEmpty then addBr st "snapshot-empty" else st)
+    else if kind == "restore" then
+      let some bytes := parseHex tok | .error (.badop l)
+      match obs with
+      | [h, ok] =>
+        let some got := parseHex h | .error (.badop l)
+        if ok != "ok" || !snapshotIdentity bytes got then
+          .error (.specfail "restore-bytes" s!"Restore() passed {bytes.length} bytes, the UDF received {got.length} (or different ones), status {ok}")
+        let (st, outs) ← ctlRequest st (.restore bytes)
+        if outs != [.restore true] || st.sess.peer.restored != got then .error (.mismatch "restore: model differs")
+        return addBr st "restore"
+      | _ => .error (.badop l)
+    else if kind == "sleep" then return st
+    else .error (.badop l)
+  | ["join"] => return st
+  | ["out"] => judgeOut st obs l
+  | _ => .error (.badop l)
+
+def judge (_id : String) (lines : Array String) : Verdict := Id.run do
+  let mut st : St := {}
+  for l in lines do
+    match judgeLine st l with
+    | .ok st' => st := st'
+    | .error v => return v
+  return .ok st.nontrivial st.branches.reverse
+
+end Kap.C19.Drv
+
+def main : IO Unit := Kap.driverMain Kap.C19.Drv.judge
